@@ -139,6 +139,15 @@ func (e *Env) postFunc(n *Node, idx int, ps PostSpec) z.PostTransform {
 		case "issue":
 			iss := &z.ZogIssue{Code: "post_issue", Message: fmt.Sprintf("post-issue n%d#%d", n.ID, idx), Path: "post.path"}
 			ret = iss
+		case "wrapped":
+			// an ordinary error that happens to carry an issue in its chain (a callback that re-validated part of
+			// its value with another schema and wrapped what it got): it is the returned error that is reported
+			inner := &z.ZogIssue{Code: "inner_issue", Message: fmt.Sprintf("inner issue of n%d#%d", n.ID, idx), Path: "inner.path"}
+			if idx%2 == 0 {
+				ret = fmt.Errorf("post n%d#%d failed: %w", n.ID, idx, inner)
+			} else {
+				ret = errors.Join(&PostError{n.ID, idx}, inner)
+			}
 		}
 		if ret != nil {
 			ev.Ret = ret.Error()
